@@ -98,6 +98,27 @@ impl Node {
         }
     }
 
+    pub fn inboxes_record(&mut self, notices: &mut HashMap<usize, Vec<String>>) -> String {
+        let mut parts = Vec::new();
+        for (i, (_, rx)) in self.sessions.iter_mut().enumerate() {
+            let msgs = drain_rx(rx);
+            if !msgs.is_empty() {
+                for m in &msgs {
+                    if m.starts_with("resolve ") {
+                        notices.entry(i).or_insert_with(Vec::new).push(m.clone());
+                    }
+                }
+                let m: Vec<String> = msgs.iter().map(|x| esc(x.as_bytes())).collect();
+                parts.push(format!("{}:[{}]", i, m.join("|")));
+            }
+        }
+        if parts.is_empty() {
+            "-".to_string()
+        } else {
+            parts.join(";")
+        }
+    }
+
     pub fn queues(&mut self) -> String {
         let r: Vec<String> = drain_rx(&mut self.repl_rx).iter().map(|x| esc(x.as_bytes())).collect();
         let s: Vec<String> = drain_rx(&mut self.sup_rx).iter().map(|x| esc(x.as_bytes())).collect();
@@ -228,6 +249,7 @@ pub fn run(path: &str, workdir: &str) {
         nundb::verif_hooks::set_data_dir(Some(dir.clone()));
         let role = role_of(case.header.get(0).map(|s| s.as_str()).unwrap_or("P"));
         let mut node = new_node("n0:3014", 1000, role, HashMap::new(), true);
+        let mut notices: HashMap<usize, Vec<String>> = HashMap::new();
         for op in &case.ops {
             let res = match op[0].as_str() {
                 "conn" => format!("Conn {}", node.connect()),
@@ -240,9 +262,52 @@ pub fn run(path: &str, workdir: &str) {
                     let sid: usize = op[1].parse().unwrap();
                     node.disconnect(sid)
                 }
+                "rsv" => {
+                    // the arbiter answers the idx-th conflict notice it has received
+                    let sid: usize = op[1].parse().unwrap();
+                    let idx: usize = op[2].parse().unwrap();
+                    let value = unhex_s(&op[3]);
+                    let notes = notices.get(&sid).cloned().unwrap_or_default();
+                    if notes.is_empty() {
+                        "NoNotice".to_string()
+                    } else {
+                        let n = &notes[idx % notes.len()];
+                        let t: Vec<&str> = n.splitn(7, ' ').collect();
+                        if t.len() < 5 {
+                            "NoNotice".to_string()
+                        } else {
+                            let line = format!("resolve {} {} {} {} {}", t[1], t[2], t[4], t[3], value);
+                            node.cmd(sid, &line)
+                        }
+                    }
+                }
+                "http" => {
+                    let body = unhex_s(&op[1]);
+                    let dbs = node.dbs.clone();
+                    let (mut client, mut receiver) = Client::new_empty_and_receiver();
+                    let r = std::panic::catch_unwind(std::panic::AssertUnwindSafe(|| {
+                        let commands: Vec<&str> = body.split(';').collect();
+                        nundb::network::http_ops::verif_process_commands(&commands, &mut receiver, &dbs, &mut client)
+                    }));
+                    // keep the session visible in dumps like the model does
+                    node.sessions.push((client, receiver));
+                    match r {
+                        Ok(v) => format!("Http {}", esc(v.join(";").as_bytes())),
+                        Err(_) => "PANIC".to_string(),
+                    }
+                }
+                "flush" => {
+                    let dbs = node.dbs.clone();
+                    match std::panic::catch_unwind(std::panic::AssertUnwindSafe(|| {
+                        nundb::disk_ops::snapshot_all_pendding_dbs(&dbs)
+                    })) {
+                        Ok(_) => "Flushed".to_string(),
+                        Err(_) => "PANIC".to_string(),
+                    }
+                }
                 o => panic!("unknown op {}", o),
             };
-            let inb = node.inboxes();
+            let inb = node.inboxes_record(&mut notices);
             let q = node.queues();
             out.line(&format!("{} | {} | {}", res, inb, q));
             out.line(&format!("D {}", node.dump(false)));
